@@ -3,11 +3,14 @@ import SctpVerif.Driver.GenX
 import SctpVerif.Driver.E2E
 import SctpVerif.Driver.Timer
 import SctpVerif.Driver.Assoc
+import SctpVerif.Driver.AssocRecv
 import SctpVerif.Driver.Hs
+import SctpVerif.Driver.Sd
 import SctpVerif.Driver.PendQ
 import SctpVerif.Driver.RingQ
 import SctpVerif.Driver.Reasm
 import SctpVerif.Driver.Codec
+import SctpVerif.Driver.Rs
 /-!
 Driver: replays implementation logs (`<comp> <op…> -> <impl result>`) through the L0 models and
 evaluates the executable property predicates on the implementation's results.
@@ -27,13 +30,16 @@ structure All where
   rq : Rq.St := {}
   e2e : E2E.St := {}
   assoc : Assoc.St := {}
+  arecv : AssocRecv.St := {}
   hs : HsD.St := {}
+  sd : SdD.St := {}
   rto : Tm.RtoSt := {}
   timer : Tm.St := {}
   pend : Pend.St := {}
   ringq : RingQ.St := {}
   reasm : Reasm.St := {}
   codec : Cdc.St := {}
+  rs : RsD.St := {}
   desync : List String := []
   cnt : Counters := {}
 
@@ -51,13 +57,16 @@ def stepComp (a : All) (comp : String) (op impl : List String) : All × Option S
   | "gen" => (a, some (GenX.step op), (GenX.pred op impl).toList)
   | "e2e" => let (s, v) := E2E.step a.e2e op impl; ({ a with e2e := s }, none, v)
   | "as" => let (s, r, v) := Assoc.step a.assoc op impl; ({ a with assoc := s }, r, v)
+  | "ar" => let (s, r, v) := AssocRecv.step a.arecv op impl; ({ a with arecv := s }, r, v)
   | "hs" => let (s, r, e) := HsD.step a.hs op impl; ({ a with hs := s }, some r, e.toList)
+  | "sd" => let (s, r, e) := SdD.step a.sd op impl; ({ a with sd := s }, some r, e.toList)
   | "rto" => let (s, r, e) := Tm.rtoStep a.rto op impl; ({ a with rto := s }, some r, e.toList)
   | "timer" => let (s, r, e) := Tm.step a.timer op impl; ({ a with timer := s }, some r, e.toList)
   | "pend" => let (s, r, e) := Pend.step a.pend op impl; ({ a with pend := s }, some r, e.toList)
   | "ringq" => let (s, r, e) := RingQ.step a.ringq op impl; ({ a with ringq := s }, some r, e.toList)
   | "reasm" => let (s, r, e) := Reasm.step a.reasm op impl; ({ a with reasm := s }, some r, e.toList)
   | "codec" => let (s, r, e) := Cdc.step a.codec op impl; ({ a with codec := s }, some r, e.toList)
+  | "rs" => let (s, r, v) := RsD.step a.rs op impl; ({ a with rs := s }, r, v)
   | _ => (a, some "unknown-component", [])
 
 partial def loop (h : IO.FS.Stream) (a : All) (lineNo : Nat) : IO All := do
